@@ -1,6 +1,7 @@
 package prove
 
 import (
+	"go/token"
 	"go/types"
 	"math/big"
 
@@ -37,6 +38,7 @@ type invariant struct {
 	e2     ssa.Value
 	s1, s2 *big.Int
 	dead   bool
+	direct bool // established by a direct argument (trip count), not by induction
 }
 
 func phiIsLen(p *ssa.Phi) bool {
@@ -260,7 +262,7 @@ func (fi *FuncInfo) headerInvariants(hb *ssa.BasicBlock) {
 				ctxs[i] = fi.CtxEdge(pred, hb)
 			}
 			for _, iv := range all {
-				if iv.dead {
+				if iv.dead || iv.direct {
 					continue
 				}
 				for i := range hb.Preds {
@@ -287,6 +289,62 @@ func (fi *FuncInfo) headerInvariants(hb *ssa.BasicBlock) {
 		sync()
 	}
 	houdini()
+	// shift-counter loops: some φ_a is replaced by φ_a >> k (k >= 1) on every
+	// back edge, each of which is only taken with φ_a >= 1; a 64-bit value
+	// reaches 0 after at most ⌈64/k⌉ such steps, which bounds the trip count and
+	// hence every unit-stride counter of the same loop.
+	if isLoop && len(entries) == 1 && len(phis) > 1 {
+		var trip *big.Int
+		for _, a := range phis {
+			if phiIsLen(a) {
+				continue
+			}
+			var k int64 = -1
+			ok := true
+			for _, i := range backs {
+				sh, isSh := a.Edges[i].(*ssa.BinOp)
+				if !isSh || sh.Op != token.SHR || sh.X != ssa.Value(a) {
+					ok = false
+					break
+				}
+				kk, isK := constInt(sh.Y)
+				if !isK || kk.Sign() <= 0 || !kk.IsInt64() || (k >= 0 && k != kk.Int64()) {
+					ok = false
+					break
+				}
+				k = kk.Int64()
+				ec := fi.CtxEdge(hb.Preds[i], hb)
+				if !ec.Entails(lin.GE(ec.phiTerm(a), lin.K(1))) {
+					ok = false
+					break
+				}
+			}
+			if ok && k > 0 {
+				trip = big.NewInt((64+k-1)/k + 1)
+			}
+		}
+		if trip != nil {
+			for _, b := range phis {
+				if phiIsLen(b) {
+					continue
+				}
+				unit := true
+				for _, i := range backs {
+					ec := fi.CtxEdge(hb.Preds[i], hb)
+					d := ec.Lin(b.Edges[i]).Sub(ec.phiTerm(b))
+					kv, isK := d.ConstVal()
+					if !isK || kv.Cmp(big.NewInt(1)) != 0 {
+						unit = false
+						break
+					}
+				}
+				if unit {
+					all = append(all, &invariant{kind: invHullHi, phi: b, e: b.Edges[entries[0]], k: trip, direct: true})
+				}
+			}
+			sync()
+		}
+	}
 	// constant strides → linear relations between pairs of φ
 	if isLoop && len(entries) == 1 && len(phis) > 1 {
 		stride := map[*ssa.Phi]*big.Int{}
